@@ -163,7 +163,7 @@ func (cs *ContractSet) parseContractFile(file, pkgPath string) error {
 	// join continuation lines: a line whose first token is not a keyword continues the previous one
 	keywords := map[string]bool{"func": true, "props": true, "requires": true, "ensures": true, "ensures-trusted": true, "modifies": true, "invariant": true, "decreases": true,
 		"trusted": true, "arith": true, "inline": true, "pred": true, "ghost": true, "owner": true, "flagchan": true, "assert": true,
-		"allocates": true, "freezes": true, "invokes": true, "preserves": true, "maintains": true, "sort": true, "effect": true, "set": true, "flagresult": true, "monitor": true, "locks": true, "inmonitor": true, "pure": true, "blocking": true, "note": true, "lemma": true, "params": true, "spec": true, "axiom": true}
+		"allocates": true, "freezes": true, "invokes": true, "preserves": true, "maintains": true, "sort": true, "effect": true, "set": true, "flagresult": true, "monitor": true, "locks": true, "inmonitor": true, "pure": true, "blocking": true, "note": true, "lemma": true, "params": true, "spec": true, "axiom": true, "package-props": true}
 	var joined []item
 	for _, it := range items {
 		f := strings.Fields(it.text)
@@ -177,12 +177,62 @@ func (cs *ContractSet) parseContractFile(file, pkgPath string) error {
 	}
 	var cur *Contract
 	var lastSpec *SpecDef
+	var pkgProps []string
+	defer func() {
+		if len(pkgProps) == 0 || pkgPath == "" {
+			return
+		}
+		add := func(ps []string) []string {
+			for _, q := range pkgProps {
+				if !hasProp(ps, q) {
+					ps = append(ps, q)
+				}
+			}
+			return ps
+		}
+		ext := func(cls []*Clause) {
+			for _, cl := range cls {
+				if len(cl.Props) > 0 {
+					cl.Props = add(cl.Props)
+				}
+			}
+		}
+		for _, c := range cs.Funcs {
+			if c.Pkg != pkgPath || c.File != file {
+				continue
+			}
+			if len(c.Props) > 0 {
+				c.Props = add(c.Props)
+			}
+			ext(c.Req)
+			ext(c.Ens)
+			ext(c.Maintains)
+			ext(c.Preserves)
+			for _, cls := range c.Inv {
+				ext(cls)
+			}
+			for _, cls := range c.Variants {
+				ext(cls)
+			}
+			for _, cls := range c.Asserts {
+				ext(cls)
+			}
+			for _, cls := range c.After {
+				ext(cls)
+			}
+		}
+	}()
 	for _, it := range joined {
 		f := strings.Fields(it.text)
 		kw := f[0]
 		rest := strings.TrimSpace(strings.TrimPrefix(it.text, kw))
 		perr := func(e error) error { return fmt.Errorf("%s:%d: %v (in %q)", file, it.line, e, it.text) }
 		switch kw {
+		case "package-props":
+			// package-props C01 C03 ...: every function under contract in this package, with all of its clauses, also
+			// serves these properties (they depend on the whole package: a clause that fails here fails them too)
+			pkgProps = append(pkgProps, f[1:]...)
+			cur = nil
 		case "func", "lemma":
 			name := rest
 			var params []string
